@@ -413,6 +413,9 @@ func (a *Analysis) errorDiscipline(rep *Report, key string, fn *ssa.Function, pa
 		if len(p.Ret) > 0 {
 			ret = p.Ret[len(p.Ret)-1].Pretty()
 		}
+		if miss && len(failed) == 0 && commaOkFalse(p) {
+			kind = "err" // a look-up helper of the comma-ok shape: false is its failure signal (its callers are judged on what they do with it)
+		}
 		rep.Ob(rule, key+":"+ck, kind == "err", pos, fmt.Sprintf("after %s the function can return %s (path kind %s): a truncated input is reported as success", what, ret, kind))
 	}
 	return
@@ -1247,4 +1250,17 @@ func hasFuncParam(fn *ssa.Function) bool {
 		}
 	}
 	return false
+}
+
+// commaOkFalse: the function's last result is a bool and this path returns false there.
+func commaOkFalse(p *Path) bool {
+	if len(p.Ret) < 2 {
+		return false
+	}
+	last := p.Ret[len(p.Ret)-1]
+	if last == nil || last.Type == nil || !isBoolType(last.Type) {
+		return false
+	}
+	b, ok := last.Bool()
+	return ok && !b
 }
